@@ -226,3 +226,16 @@ Proof.
   unfold unlisted in Hun. pose proof (smem_filter n known (flagged t) Hfl Hk) as H.
   rewrite Hun in H. discriminate.
 Qed.
+
+(* happens-before respects trace order *)
+Lemma hb1_lt tr i j : hb1 tr i j -> (i < j)%nat.
+Proof. intros H; inversion H; assumption. Qed.
+Lemma hb_lt tr i j : hb tr i j -> (i < j)%nat.
+Proof. intros H. induction H as [x y H|x y z _ IH1 _ IH2]; [eapply hb1_lt; exact H|lia]. Qed.
+
+(* two adjacent events are ordered only by a direct edge *)
+Lemma hb_adjacent tr i : hb tr i (S i) -> hb1 tr i (S i).
+Proof.
+  intros H. apply clos_trans_t1n in H. inversion H as [y Hs|y z Hs Hr]; subst; [exact Hs|].
+  apply hb1_lt in Hs. apply clos_t1n_trans in Hr. apply hb_lt in Hr. lia.
+Qed.
